@@ -126,6 +126,14 @@ MUTANTS = [
     ("cert-expiry-removes-front-of-table", "varlink-certification/src/main.rs",
      r"if instant\.elapsed\(\)\.as_secs\(\) > self\.max_lifetime \{\s*self\.contexts\.remove\(client_id\);",
      "if instant.elapsed().as_secs() > self.max_lifetime {\n                        self.contexts.insert(client_id.clone(), TestContext { test: \"Test01\".into() });", {"C19"}),
+    ("cert-more-check-accepts-upgrade", "varlink-certification/src/main.rs",
+     r"(macro_rules! check_call_more \{.*?let check = match \$c\.get_request\(\) \{\s*)Some\(&varlink::Request \{\s*oneway: Some\(true\), \.\.\s*\}\)\s*\| Some\(&varlink::Request \{\s*upgrade: Some\(true\),\s*\.\.\s*\}\) => false,",
+     r"\1Some(&varlink::Request {\n                oneway: Some(true), ..\n            }) => false,", {"C19"}),
+    ("cert-value-comparison-skipped", "varlink-certification/src/main.rs", r"Ok\(w\) => wants == w,", "Ok(w) => { let _ = &w; true }", {"C19"}),
+    ("cert-normal-check-fallthrough-true", "varlink-certification/src/main.rs",
+     r"(macro_rules! check_call_normal \{.*?)_ => false,\s*\};\s*if !check", r"\1_ => true,\n        };\n        if !check", {"C19"}),
+    ("cert-test03-checks-wrong-method-name", "varlink-certification/src/main.rs",
+     r'"org\.varlink\.certification\.Test03",\s*Test03_Args,', '"org.varlink.certification.Test02",\n            Test03_Args,', {"C19"}),
 ]
 
 
